@@ -64,7 +64,7 @@ ASSUMPTIONS = [
 	"called is recorded, not judged",
 	"device='cpu'; variant tensors are int64",
 ]
-REQUIRED = {"del_flank_touch": 50, "del_unequal_counts": 50,
+REQUIRED = {"left_kind_npbool": 50, "left_kind_int": 50, "del_flank_touch": 50, "del_unequal_counts": 50,
 	"zero_variant_example": 50, "ins_edge": 20, "sub_repeated_rows": 10,
 	"must_raise_cases": 50, "predict_path_cases": 50,
 	"capture_path_cases": 50}
@@ -277,6 +277,9 @@ class Ident(torch.nn.Module):
 		return X.clone()
 
 
+SEEN = {}
+
+
 def execute(fn, X, V, left, via):
 	"""-> (status, value, number of func invocations or None)"""
 	from tangermeme import variant_effect
@@ -284,6 +287,14 @@ def execute(fn, X, V, left, via):
 		"del": variant_effect.deletion_effect,
 		"ins": variant_effect.insertion_effect}[fn]
 	kw = {} if fn == "sub" else {"left": left}
+	if fn != "sub":
+		# the object that carries the flag: a Python bool, a numpy bool (the
+		# result of a comparison on an array, e.g. strand == '-') or 0 / 1
+		lk = ("bool", "bool", "npbool", "int")[gen.pyrng("C10left", fn, left,
+			repr(X.shape), repr(V.tolist())[:200]).randrange(4)]
+		kw["left"] = {"bool": bool, "npbool": numpy.bool_, "int": int}[lk](
+			left)
+		SEEN["left_kind_" + lk] = SEEN.get("left_kind_" + lk, 0) + 1
 	if via == "capture":
 		calls = []
 
@@ -570,6 +581,8 @@ def plan(tier, seed):
 def run_unit(unit, rec):
 	{"exh": run_exh, "rand": run_rand, "invalid": run_invalid,
 		"maybe": run_maybe}[unit["cls"]](unit, rec)
+	for k in list(SEEN):
+		rec.count(k, SEEN.pop(k))
 
 
 def run_exh(unit, rec):
